@@ -8,7 +8,7 @@ parameters so that every load-factor growth threshold (6.5 * 2^B), same-size gro
 Pure function of (seed, tier, avoid flags): no sets, no hash(), no time."""
 import random
 
-KEYS = ["int", "uint8", "string", "float64", "iface", "arr", "sk", "ptr", "bk", "pk"]
+KEYS = ["int", "uint8", "string", "float64", "iface", "arr", "sk", "ptr", "bk", "pk", "c128", "ck"]
 VALS = ["int", "string", "empty", "a5", "a17"]
 # growth of the bucket array happens when count+1 > THRESH[B].  llgo's port computes
 # loadFactorNum as (8*13/16)*2 = 12, i.e. load factor 6.0 (Go: 13 -> 6.5); both lists are used
@@ -93,7 +93,7 @@ def _one(r, k, v, tier, flags, idx, avoid_nan_churn=False):
         hi = THRESH[b] - r.choice([0, 0, 0, 1, 2])
         ops = {1: 3000, 2: 5000, 3: 8000, 4: 14000, 5: 24000, 6: 45000}[b]
         prof = "churn"
-        if k in ("float64", "iface"):
+        if k in ("float64", "iface", "c128"):
             if avoid_nan_churn:
                 flags |= F_NO_NAN   # open finding C06-iter-samesize-nan: NaN keys + same-size grow stay in the probe
             elif r.random() < 0.6:
